@@ -66,31 +66,18 @@ theorem C14_lr_release_alone (s : St) (r : Tid) (c x : Side) (h : s.pc r = .rdRe
 
 /-! ## writers -/
 
-/-- The counters are exact: the value a writer's spin load must observe (`(s.reg c).length`) is the number of
+/-- The counters are exact: the value a writer's counter load must observe (`(s.reg c).length`) is the number of
 threads between their increment and their decrement of counter `c` (no duplicates, membership = pc). -/
 theorem C14_lr_counter_exact {s : St} (h : Reachable s) (c : Side) :
     (s.reg c).Nodup ∧ ∀ t, t ∈ s.reg c ↔ (s.pc t).regIn = some c := by
   have hi := (full_reachable h).inv
   exact ⟨by cases c <;> simp [St.reg, hi.nodupL, hi.nodupR], fun t => hi.mem t c⟩
 
-/-- First wait loop: if no thread is registered in the waited counter, the load returns 0 and the writer leaves the
-loop (the only `ldCnt` event accepted is the one with value 0, and it moves on). -/
-theorem C14_lr_writer_exits_first {s : St} (h : Reachable s) {w : Tid} {op : OpId} {l c : Side}
-    (hw : s.pc w = .wCL op l c) (hnone : ∀ t, (s.pc t).regIn ≠ some c.flip) :
-    step s w (.ldCnt c.flip 0) = some (s.setPc w (.wW1 op l c)) ∧ ∀ v, v ≠ 0 → step s w (.ldCnt c.flip v) = none := by
-  have hi := (full_reachable h).inv
-  have hz : (s.reg c.flip).length = 0 := by
-    rw [List.length_eq_zero_iff]
-    apply List.eq_nil_iff_forall_not_mem.2
-    intro t ht; exact hnone t ((hi.mem t _).1 ht)
-  constructor
-  · simp [step, hw, hz]
-  · intro v hv; simp [step, hw, hz, hv]
-
-/-- Second wait loop, same statement for counter `c`. -/
-theorem C14_lr_writer_exits_second {s : St} (h : Reachable s) {w : Tid} {op : OpId} {l c : Side}
-    (hw : s.pc w = .wTogC op l c) (hnone : ∀ t, (s.pc t).regIn ≠ some c) :
-    step s w (.ldCnt c 0) = some (s.setPc w (.wW2 op l)) ∧ ∀ v, v ≠ 0 → step s w (.ldCnt c v) = none := by
+/-- Waiting for readers (pc `wWait`): if no thread is registered in counter `c`, the only load of `c` the model
+accepts returns 0, and it records `c` as seen empty. -/
+theorem C14_lr_writer_sees_zero {s : St} (h : Reachable s) {w : Tid} {op : OpId} {l c : Side} {zL zR : Bool}
+    (hw : s.pc w = .wWait op l zL zR) (hnone : ∀ t, (s.pc t).regIn ≠ some c) :
+    step s w (.ldCnt c 0) = some (s.setPc w (waitSeen op l zL zR c)) ∧ ∀ v, v ≠ 0 → step s w (.ldCnt c v) = none := by
   have hi := (full_reachable h).inv
   have hz : (s.reg c).length = 0 := by
     rw [List.length_eq_zero_iff]
@@ -100,21 +87,43 @@ theorem C14_lr_writer_exits_second {s : St} (h : Reachable s) {w : Tid} {op : Op
   · simp [step, hw, hz]
   · intro v hv; simp [step, hw, hz, hv]
 
-/-- The counter a writer waits on is never the one new readers are directed to: in the first loop (waiting on `¬c`)
-the counting flag is `c`; in the second loop (waiting on `c`) it is `¬c`. -/
-theorem C14_lr_waited_counter_closed {s : St} (h : Reachable s) {w : Tid} {op : OpId} {l c : Side} :
-    (s.pc w = .wCL op l c → s.cl = c) ∧ (s.pc w = .wTogC op l c → s.cl = c.flip) := by
+/-- Once both counters have been seen empty the second application is enabled. -/
+theorem C14_lr_writer_exits (s : St) (w : Tid) (op : OpId) (l : Side) (hw : s.pc w = .wWait op l true true) :
+    step s w (.fBegin l) = some (s.setPc w (.wF2 op l)) := by
+  simp [step, hw]
+
+/-- Constructively: when all handles have been released and no reader is mid-acquisition past its increment, three
+own steps take a waiting writer into its second application, whatever it had observed before. -/
+theorem C14_lr_writer_finishes_alone {s : St} (h : Reachable s) {w : Tid} {op : OpId} {l : Side} {zL zR : Bool}
+    (hw : s.pc w = .wWait op l zL zR) (hnone : ∀ t, (s.pc t).regIn = none) :
+    ∃ s', run s [(w, .ldCnt .L 0), (w, .ldCnt .R 0), (w, .fBegin l)] = some s' ∧ s'.pc w = .wF2 op l := by
   have hi := (full_reachable h).inv
-  constructor
-  · intro hw; have ph := hi.phase w (by simp [hw, Pc.post]); rw [hw] at ph; exact ph.2
-  · intro hw; have ph := hi.phase w (by simp [hw, Pc.post]); rw [hw] at ph; exact ph.2.1
+  have hz : ∀ c, (s.reg c).length = 0 := by
+    intro c
+    rw [List.length_eq_zero_iff]
+    apply List.eq_nil_iff_forall_not_mem.2
+    intro t ht; have := (hi.mem t _).1 ht; rw [hnone t] at this; cases this
+  simp [run, runFrom, step, hw, hz, waitSeen]
+
+/-- Strict mode (the progress discipline checked for C14): a wait iteration — a counter load that returns non-zero —
+is accepted only on a counter new readers are NOT directed to (`cl ≠ c`).  Today's code satisfies it: its first loop
+waits on `¬cl`, then it flips `cl` and waits on the other counter. -/
+theorem C14_lr_wait_closed {s s' : St} {w : Tid} {op : OpId} {l c : Side} {zL zR : Bool} {v : Nat}
+    (hstrict : s.strict = true) (hw : s.pc w = .wWait op l zL zR) (hs : step s w (.ldCnt c v) = some s') (hv : v ≠ 0) :
+    s.cl ≠ c := by
+  simp [step, hw, hv, hstrict] at hs
+  exact hs.2.1
+
+/-- `strict` is a configuration constant: every state reached from `init true` is strict. -/
+theorem C14_lr_strict_const {b : Bool} {s : St} {es : List (Tid × Ev)} (hr : run (init b) es = some s) : s.strict = b :=
+  runFrom_inv (Inv := fun s => s.strict = b) (fun _ _ _ _ h0 hs => by rw [step_strict hs]; exact h0) rfl hr
 
 /-- A thread becomes registered in counter `x` only by its increment, from the pc at which it had already loaded
 the counting flag with value `x` ... -/
 theorem C14_lr_register_from {s s' : St} {t : Tid} {e : Ev} {x : Side} (hs : step s t e = some s')
     (h' : (s'.pc t).regIn = some x) : (s.pc t).regIn = some x ∨ s.pc t = .rdCL x := by
   unfold step at hs
-  split at hs <;> (try split at hs) <;> (try split at hs) <;> (try (simp at hs; done)) <;>
+  split at hs <;> (try split at hs) <;> (try split at hs) <;> (try split at hs) <;> (try (simp at hs; done)) <;>
     (try (injection hs with hs; subst hs; simp [Pc.regIn] at h'; done))
   all_goals first
     | (rw [stutter_eq hs] at h'; exact Or.inl h')
@@ -130,7 +139,7 @@ the writer is delayed only by readers that arrived before, and completes once th
 theorem C14_lr_stale_from {s s' : St} {t : Tid} {e : Ev} {x : Side} (hs : step s t e = some s')
     (h' : s'.pc t = .rdCL x) : s.pc t = .rdCL x ∨ (s.pc t = .rdCalled ∧ x = s.cl) := by
   unfold step at hs
-  split at hs <;> (try split at hs) <;> (try split at hs) <;> (try (simp at hs; done)) <;>
+  split at hs <;> (try split at hs) <;> (try split at hs) <;> (try split at hs) <;> (try (simp at hs; done)) <;>
     (try (injection hs with hs; subst hs; simp at h'; done))
   all_goals first
     | (rw [stutter_eq hs] at h'; exact Or.inl h')
@@ -138,35 +147,40 @@ theorem C14_lr_stale_from {s s' : St} {t : Tid} {e : Ev} {x : Side} (hs : step s
     | (injection hs with hs; subst hs; exact Or.inl h')
 
 /-- L2: the holder of the write mutex always has an enabled event (it never waits for anything but the two
-counters, and a spin iteration is itself a step). -/
+counters, and a wait iteration is itself a step). -/
 theorem C14_lr_holder_enabled {s : St} (h : Reachable s) {w : Tid} (hw : (s.pc w).post = true) :
     ∃ e, (step s w e).isSome = true := by
   have hm := ((full_reachable h).inv.holder w).1 hw
   cases hp : s.pc w <;> rw [hp] at hw <;> simp only [Pc.post] at hw <;> (try cases hw)
-  case wLocked op => exact ⟨.ldRL s.rl, by simp [step, hp]⟩
-  case wRL op l => exact ⟨.fBegin l.flip, by simp [step, hp]⟩
+  case wA op l => exact ⟨.fBegin l.flip, by simp [step, hp]⟩
   case wF1 op l => exact ⟨.fEnd l.flip (s.val l.flip ++ [op]), by simp [step, hp]⟩
   case wF1d op l => exact ⟨.stRL l.flip, by simp [step, hp]⟩
   case wRb op l => exact ⟨.cpBegin l.flip, by simp [step, hp]⟩
   case wRbC op l => exact ⟨.cpEnd l.flip (s.val l), by simp [step, hp]⟩
   case wRbD op l => exact ⟨.unlock, by simp [step, hp, hm]⟩
-  case wTog op l => exact ⟨.ldCL s.cl, by simp [step, hp]⟩
-  case wCL op l c => exact ⟨.yld, by simp [step, hp]⟩
-  case wW1 op l c => exact ⟨.stCL c.flip, by simp [step, hp]⟩
-  case wTogC op l c => exact ⟨.yld, by simp [step, hp]⟩
-  case wW2 op l => exact ⟨.fBegin l, by simp [step, hp]⟩
+  case wWait op l zL zR => exact ⟨.yld, by simp [step, hp]⟩
   case wF2 op l => exact ⟨.fEnd l (s.val l ++ [op]), by simp [step, hp]⟩
   case wF2d op l => exact ⟨.unlock, by simp [step, hp, hm]⟩
   case wRf op l => exact ⟨.cpBegin l, by simp [step, hp]⟩
   case wRfC op l => exact ⟨.cpEnd l (s.val l.flip), by simp [step, hp]⟩
   case wRfD op l => exact ⟨.unlock, by simp [step, hp, hm]⟩
 
-/-- The spin load itself is always enabled with the current counter value (the writer is never stuck in a loop
-iteration). -/
-theorem C14_lr_spin_enabled {s : St} {w : Tid} {op : OpId} {l c : Side} :
-    (s.pc w = .wCL op l c → (step s w (.ldCnt c.flip (s.reg c.flip).length)).isSome = true) ∧
-    (s.pc w = .wTogC op l c → (step s w (.ldCnt c (s.reg c).length)).isSome = true) := by
-  constructor <;> intro hw <;> simp [step, hw] <;> split <;> simp
+/-- A waiting writer can always look at a counter: the load with the current value is enabled unless (strict mode)
+it would be a wait iteration on the counter new readers are directed to; flag loads, a flag store and `yld` are
+always enabled — the writer is never stuck inside its wait. -/
+theorem C14_lr_spin_enabled {s : St} {w : Tid} {op : OpId} {l : Side} {zL zR : Bool} (hw : s.pc w = .wWait op l zL zR)
+    (c : Side) :
+    ((s.reg c).length = 0 ∨ s.strict = false ∨ s.cl ≠ c → (step s w (.ldCnt c (s.reg c).length)).isSome = true) ∧
+    (step s w .yld).isSome = true ∧ (step s w (.ldCL s.cl)).isSome = true ∧ (step s w (.stCL c)).isSome = true := by
+  refine ⟨?_, by simp [step, hw], by simp [step, hw, Pc.post, stutter], by simp [step, hw]⟩
+  intro h
+  simp only [step, hw]
+  by_cases hz : (s.reg c).length = 0
+  · simp [hz]
+  · rcases h with h | h | h
+    · exact absurd h hz
+    · simp [hz, h]
+    · simp [hz, h]
 
 /-- L4: a writer waiting for the write mutex is enabled as soon as the mutex is free; if it is not free, its holder
 is enabled (`C14_lr_holder_enabled`) — no deadlock between readers and writers. -/
@@ -180,18 +194,31 @@ theorem C14_lr_lock_enabled (s : St) (t : Tid) (op : OpId) (h : s.pc t = .wCalle
 example : ∃ s s', Reachable s ∧ s.pc 0 = .wF1 7 .L ∧ s.pc 1 = .rdCalled ∧
     run s [(1, .ldCL .L), (1, .inc .L 0), (1, .ldRL .L), (1, .ret (.ls 0))] = some s' ∧ s'.pc 1 = .rdHold .L .L ∧
     s'.pc 0 = .wF1 7 .L :=
-  ⟨_, _, ⟨[(0, .call (.modify 7)), (0, .lock), (0, .ldRL .L), (0, .fBegin .R), (1, .call (.ls 0))], rfl⟩, rfl, rfl, rfl, rfl, rfl⟩
+  ⟨_, _, ⟨false, [(0, .call (.modify 7)), (0, .lock), (0, .ldRL .L), (0, .fBegin .R), (1, .call (.ls 0))], rfl⟩, rfl, rfl, rfl, rfl, rfl⟩
 
-/-- writer 0 spins in its second loop on a reader registered in L; once the reader has released, the exit edge fires -/
-example : ∃ s s', Reachable s ∧ s.pc 0 = .wTogC 7 .L .L ∧ step s 0 (.ldCnt .L 1) = some s ∧
-    run s [(1, .call .rel), (1, .dec .L 1), (1, .ret .rel), (0, .ldCnt .L 0)] = some s' ∧ s'.pc 0 = .wW2 7 .L :=
-  ⟨_, _, ⟨[(1, .call (.ls 0)), (1, .ldCL .L), (1, .inc .L 0), (1, .ldRL .L), (1, .ret (.ls 0)),
+/-- writer 0 waits on a reader registered in L (strict mode: `cl = R`, so waiting on L is allowed); once the reader has
+released, the load returns 0 and the second application starts -/
+example : ∃ s s', Reachable s ∧ s.strict = true ∧ s.pc 0 = .wWait 7 .L false true ∧ step s 0 (.ldCnt .L 1) = some s ∧
+    run s [(1, .call .rel), (1, .dec .L 1), (1, .ret .rel), (0, .ldCnt .L 0), (0, .fBegin .L)] = some s' ∧
+    s'.pc 0 = .wF2 7 .L :=
+  ⟨_, _, ⟨true, [(1, .call (.ls 0)), (1, .ldCL .L), (1, .inc .L 0), (1, .ldRL .L), (1, .ret (.ls 0)),
          (0, .call (.modify 7)), (0, .lock), (0, .ldRL .L), (0, .fBegin .R), (0, .fEnd .R [7]), (0, .stRL .R), (0, .ldCL .L),
-         (0, .ldCnt .R 0), (0, .stCL .R)], rfl⟩, rfl, rfl, rfl, rfl⟩
+         (0, .ldCnt .R 0), (0, .stCL .R)], rfl⟩, rfl, rfl, rfl, rfl, rfl⟩
 
-/-- a stale reader (counting flag loaded before the writer flipped it) registers in the counter of the first loop -/
-example : ∃ s, Reachable s ∧ s.pc 0 = .wCL 8 .R .R ∧ s.pc 1 = .rdCL .L ∧ s.cl = .R :=
-  ⟨_, ⟨[(1, .call (.ls 0)), (1, .ldCL .L),
+/-- strict mode rejects a wait iteration on the counter new readers are directed to (the two loops swapped), which the
+safety model accepts -/
+example : ∃ s s', Reachable s ∧ Reachable s' ∧ s.strict = true ∧ s'.strict = false ∧ s.pc 0 = .wWait 7 .L false false ∧
+    s.cl = .L ∧ step s 0 (.ldCnt .L 1) = none ∧ step s' 0 (.ldCnt .L 1) = some s' :=
+  ⟨_, _, ⟨true, [(1, .call (.ls 0)), (1, .ldCL .L), (1, .inc .L 0), (1, .ldRL .L), (1, .ret (.ls 0)),
+         (0, .call (.modify 7)), (0, .lock), (0, .ldRL .L), (0, .fBegin .R), (0, .fEnd .R [7]), (0, .stRL .R), (0, .ldCL .L)], rfl⟩,
+   ⟨false, [(1, .call (.ls 0)), (1, .ldCL .L), (1, .inc .L 0), (1, .ldRL .L), (1, .ret (.ls 0)),
+         (0, .call (.modify 7)), (0, .lock), (0, .ldRL .L), (0, .fBegin .R), (0, .fEnd .R [7]), (0, .stRL .R), (0, .ldCL .L)], rfl⟩,
+   rfl, rfl, rfl, rfl, rfl, rfl⟩
+
+/-- a stale reader (counting flag loaded before the writer flipped it) is about to register in the counter the next
+modify waits on first -/
+example : ∃ s, Reachable s ∧ s.pc 0 = .wWait 8 .R false false ∧ s.pc 1 = .rdCL .L ∧ s.cl = .R :=
+  ⟨_, ⟨true, [(1, .call (.ls 0)), (1, .ldCL .L),
          (0, .call (.modify 7)), (0, .lock), (0, .ldRL .L), (0, .fBegin .R), (0, .fEnd .R [7]), (0, .stRL .R), (0, .ldCL .L),
          (0, .ldCnt .R 0), (0, .stCL .R), (0, .ldCnt .L 0), (0, .fBegin .L), (0, .fEnd .L [7]), (0, .unlock), (0, .ret (.modify 7)),
          (0, .call (.modify 8)), (0, .lock), (0, .ldRL .R), (0, .fBegin .L), (0, .fEnd .L [7, 8]), (0, .stRL .L), (0, .ldCL .R)],
